@@ -132,11 +132,11 @@ impl BoundSet {
     }
 
     fn allows_any(&self, other: &BoundSet) -> bool {
-        if other.upper < self.lower {
+        if other.upper <= self.lower {
             return false;
         }
 
-        if self.upper < other.lower {
+        if self.upper <= other.lower {
             return false;
         }
 
@@ -252,6 +252,22 @@ impl Bound {
     }
 }
 
+impl Bound {
+    /// Position of this bound as a cut in the version order: the cut sits
+    /// either just before (`false`) or just after (`true`) the version.
+    /// `None` for an unbounded side.
+    fn cut(&self) -> Option<(&Version, bool)> {
+        use Bound::*;
+        use Predicate::*;
+
+        match self {
+            Lower(Including(v)) | Upper(Excluding(v)) => Some((v, false)),
+            Lower(Excluding(v)) | Upper(Including(v)) => Some((v, true)),
+            Lower(Unbounded) | Upper(Unbounded) => None,
+        }
+    }
+}
+
 impl Ord for Bound {
     fn cmp(&self, other: &Self) -> Ordering {
         use Bound::*;
@@ -264,47 +280,7 @@ impl Ord for Bound {
             (Upper(Unbounded), _) | (_, Lower(Unbounded)) => Ordering::Greater,
             (Lower(Unbounded), _) | (_, Upper(Unbounded)) => Ordering::Less,
 
-            (Upper(Including(v1)), Upper(Including(v2)))
-            | (Upper(Including(v1)), Lower(Including(v2)))
-            | (Upper(Excluding(v1)), Upper(Excluding(v2)))
-            | (Upper(Excluding(v1)), Lower(Excluding(v2)))
-            | (Lower(Including(v1)), Upper(Including(v2)))
-            | (Lower(Including(v1)), Lower(Including(v2)))
-            | (Lower(Excluding(v1)), Lower(Excluding(v2))) => v1.cmp(v2),
-
-            (Lower(Excluding(v1)), Upper(Excluding(v2)))
-            | (Lower(Including(v1)), Upper(Excluding(v2))) => {
-                if v2 <= v1 {
-                    Ordering::Greater
-                } else {
-                    Ordering::Less
-                }
-            }
-            (Upper(Including(v1)), Upper(Excluding(v2)))
-            | (Upper(Including(v1)), Lower(Excluding(v2)))
-            | (Lower(Excluding(v1)), Upper(Including(v2))) => {
-                if v2 < v1 {
-                    Ordering::Greater
-                } else {
-                    Ordering::Less
-                }
-            }
-            (Lower(Excluding(v1)), Lower(Including(v2))) => {
-                if v1 < v2 {
-                    Ordering::Less
-                } else {
-                    Ordering::Greater
-                }
-            }
-            (Lower(Including(v1)), Lower(Excluding(v2)))
-            | (Upper(Excluding(v1)), Lower(Including(v2)))
-            | (Upper(Excluding(v1)), Upper(Including(v2))) => {
-                if v1 <= v2 {
-                    Ordering::Less
-                } else {
-                    Ordering::Greater
-                }
-            }
+            _ => self.cut().cmp(&other.cut()),
         }
     }
 }
